@@ -680,3 +680,88 @@ func FuzzC10State(f *testing.F) {
 	f.Add([]byte{1, 2, 3, 4, 5, 6, 7, 8, 9, 10, 11, 12, 13, 14, 15, 16})
 	f.Fuzz(rapid.MakeFuzz(c10StateProperty))
 }
+
+// c10ExecProperty: the state root of block h commits to every write executed in block h - nothing the executor writes while
+// it processes a block (contract writes, fee payments, the timeout mechanism's status changes and list updates) may stay
+// behind uncommitted. Node X runs a generated history through; node Y executes the same blocks and is restarted after
+// every block, so that it only ever holds what the blocks committed. A write that block h made after its root was taken is
+// carried into block h+1 by X and lost by Y: the roots of block h+1 differ.
+func c10ExecProperty(t *rapid.T) {
+	audit := rapid.Bool().Draw(t, "audit")
+	tpl := sim.StdWorld(audit)
+	x := tpl.Instantiate("c10x")
+	defer x.N.Destroy()
+	y := tpl.Instantiate("c10y")
+	defer y.N.Destroy()
+	g := newHistGen(t, x)
+	g.replays = 2
+	g.weights = append(g.weights, "ibtp-req", "ibtp-req", "ibtp-req", "ibtp-req", "ibtp-rcpt", "ibtp-rcpt", "group", "transfer")
+	var ops []string
+	f := &failer{t: t, prop: "C10", ops: &ops}
+	ops = append(ops, fmt.Sprintf("world std audit=%v", audit))
+	nBlocks := rapid.IntRange(3, 9).Draw(t, "blocks")
+	var queue []*blockSpec
+	timeouts, ibtps := 0, 0
+	for bi := 0; bi < nBlocks; bi++ {
+		var b *blockSpec
+		if len(queue) > 0 {
+			b, queue = queue[0], queue[1:]
+		} else if rapid.IntRange(0, 3).Draw(t, "episode") == 0 {
+			ep := g.genGroupEpisode()
+			b, queue = ep[0], ep[1:]
+		} else {
+			b = g.genBlock(6)
+		}
+		h := x.N.Height()
+		if _, err := x.N.ExecBlock(b.event(h + 1)); err != nil {
+			f.fail("X: block %d not executed: %v", h+1, err)
+		}
+		rs := checkExecuted(x.N, h, b, f)
+		g.observe(b, rs)
+		for i, s := range b.txs {
+			ops = append(ops, fmt.Sprintf("  block %d tx %d: %s -> ok=%v", h+1, i, s.desc, rs[i].IsSuccess()))
+			if strings.HasPrefix(s.kind, "ibtp") || s.kind == "group" {
+				if rs[i].IsSuccess() {
+					ibtps++
+				}
+			}
+		}
+		if m, err := x.N.Ledger.GetInterchainMeta(h + 1); err == nil {
+			for _, v := range m.TimeoutCounter {
+				timeouts += len(v.Slice)
+			}
+		}
+		if _, err := y.N.ExecBlock(b.event(h + 1)); err != nil {
+			f.fail("Y: block %d not executed: %v", h+1, err)
+		}
+		bx, errX := x.N.Ledger.GetBlock(h+1, false)
+		by, errY := y.N.Ledger.GetBlock(h+1, false)
+		if errX != nil || errY != nil {
+			f.fail("block %d not readable: %v / %v", h+1, errX, errY)
+		}
+		if bx.BlockHeader.StateRoot.String() != by.BlockHeader.StateRoot.String() {
+			f.fail("block %d has state root %s on the node that ran through and %s on the node that was restarted after every block: an earlier block left a write behind that its own root does not cover", h+1, bx.BlockHeader.StateRoot.String(), by.BlockHeader.StateRoot.String())
+		}
+		if bx.BlockHeader.ReceiptRoot.String() != by.BlockHeader.ReceiptRoot.String() || bx.BlockHeader.TxRoot.String() != by.BlockHeader.TxRoot.String() {
+			f.fail("block %d: receipt/tx roots %s/%s vs %s/%s on the restarted node", h+1, bx.BlockHeader.ReceiptRoot.String(), bx.BlockHeader.TxRoot.String(), by.BlockHeader.ReceiptRoot.String(), by.BlockHeader.TxRoot.String())
+		}
+		y.N.Reopen()
+	}
+	dx, dy := sim.DumpState(x.N.StateDB), sim.DumpState(y.N.StateDB)
+	if keys := sim.DiffDumps(dx, dy); len(keys) > 0 {
+		f.fail("the state stores differ at the end although every block has the same root on both nodes:\n%s", sim.DescribeDiff(dx, dy, keys, 3))
+	}
+	st := sim.StatsFor("C10")
+	nt := ""
+	var classes []string
+	classes = append(classes, "executor-level-root-covers-own-block")
+	if timeouts > 0 {
+		classes = append(classes, "executor-level-timeout-expired")
+	}
+	if ibtps > 0 && nBlocks >= 3 {
+		nt = "exec/" + strings.Join(ops, "|")
+	}
+	st.Case(nt, classes...)
+}
+
+func TestC10Exec(t *testing.T) { rapid.Check(t, c10ExecProperty) }
